@@ -5,7 +5,7 @@ namespace doc {
 using CsvMaps = std::vector<std::map<std::string, std::string>>;
 void register_csv(Registry& r) {
 #define X(N, ...) reg<TA, __VA_ARGS__>(r, "csv", #N);
-	X(csvrows, std::vector<mz::CsvRow>) X(csvmaps, CsvMaps) X(csvscalars, std::vector<mz::Scalars>) X(csvlist, std::list<mz::CsvRow>) X(csvpadded, std::vector<mz::CsvPadded>)
+	X(csvrows, std::vector<mz::CsvRow>) X(csvmaps, CsvMaps) X(csvscalars, std::vector<mz::Scalars>) X(csvlist, std::list<mz::CsvRow>) X(csvflist, std::forward_list<mz::CsvRow>) X(csvdeque, std::deque<mz::CsvRow>) X(csvpadded, std::vector<mz::CsvPadded>)
 #undef X
 }
 }
